@@ -76,6 +76,11 @@ func DecRaw(name string, lo int64, hiBits int) sdkmath.LegacyDec {
 	return sdkmath.LegacyNewDecFromBigIntWithPrec(bigOf(name), 18)
 }
 
+// DecRawMax returns a LegacyDec whose raw 18-decimal representation is the input in [0, max].
+func DecRawMax(name string, max string) sdkmath.LegacyDec {
+	return sdkmath.LegacyNewDecFromBigIntWithPrec(bigOf(name), 18)
+}
+
 func Str(name string) string {
 	s := cur.Inputs[name]
 	if len(s) >= 2 && s[:2] == "s:" {
